@@ -14,7 +14,7 @@ from pydcop.algorithms import AlgorithmDef, load_algorithm_module
 ALGOS = [("dpop", {}), ("dsa", {"stop_cycle": 5}), ("mgm", {"stop_cycle": 5}), ("maxsum", {}), ("adsa", {}), ("mgm2", {"stop_cycle": 4})]
 
 
-def one_run(hid, inst, algo, params, kind, nag, r):
+def one_run(hid, inst, algo, params, kind, nag, r, with_scenario=False):
     dcop, doms = make(inst, nag)
     mod = load_algorithm_module(algo)
     gm = importlib.import_module("pydcop.computations_graph." + mod.GRAPH_TYPE)
@@ -22,11 +22,20 @@ def one_run(hid, inst, algo, params, kind, nag, r):
     algo_def = AlgorithmDef.build_with_default_param(algo, params, mode=dcop.objective)
     dist = distribution_for(kind, dcop, cg, r)
     timeout = 20 if algo in ("dpop", "dsa", "mgm", "mgm2") else 0.6       # maxsum / adsa do not stop by themselves
-    orch, rec, err = threaded_solve(dcop, algo_def, cg, dist, infinity=10000, timeout=timeout, switch=r.choice([1e-6, 1e-5, 1e-4, 5e-3]))
+    scenario = None
+    if with_scenario:
+        # a scenario with a removal event, as `pydcop run` plays it (timer threads hand the events to the orchestrator)
+        from pydcop.dcop.scenario import Scenario, DcopEvent, EventAction
+        victim = r.choice(sorted(dcop.agents))
+        scenario = Scenario([DcopEvent("d1", delay=0.15), DcopEvent("e1", actions=[EventAction("remove_agent", agent=victim)]),
+                             DcopEvent("d2", delay=0.15)])
+        timeout = 1.0
+    orch, rec, err = threaded_solve(dcop, algo_def, cg, dist, infinity=10000, timeout=timeout, switch=r.choice([1e-6, 1e-5, 1e-4, 5e-3]),
+                                    scenario=scenario)
     events = sorted(rec.events, key=lambda e: e["seq"])
     known = [e for e in events if e["agent"] in rec.owner][:4000]      # (a prefix: enter/exit pairs cut at the end are harmless)
     return {"id": hid, "owner": rec.owner, "events": [{k: e[k] for k in ("agent", "comp", "kind", "tid", "ph")} for e in known]}, \
-        {"algo": algo, "dist": kind, "agents": nag, "shape": inst["shape"], "status": orch.status, "err": err,
+        {"algo": algo, "dist": kind, "agents": nag, "shape": inst["shape"], "status": orch.status if orch else "?", "err": err, "scenario": with_scenario,
          "unowned": sorted({e["agent"] for e in events if e["agent"] not in rec.owner})}
 
 
@@ -45,6 +54,11 @@ def run(tier):
         kind = r.choice(["oneagent", "random", "random"])
         nag = len(inst["vars"]) + len(inst["cons"]) if kind == "oneagent" else r.choice([2, 3])
         rec, m = one_run(len(recs), inst, algo, params, kind, nag, r)
+        meta[rec["id"]] = m
+        recs.append(rec)
+    for i in range(3 if quick else 20):
+        inst = r.choice(insts)
+        rec, m = one_run(len(recs), inst, "adsa" if i % 2 else "maxsum", {}, "random", 3, r, with_scenario=True)
         meta[rec["id"]] = m
         recs.append(rec)
     verdicts, jres = judge("Judge_C21", recs, chunk=40, workers=1, xss="1g")
@@ -75,7 +89,7 @@ def run(tier):
     v.cov["callbacks_by_kind"] = kinds
     v.cov["exhaustive"] = False
     v.cov["rule"] = ("%d real-thread orchestrated runs (algorithms dpop, dsa, mgm, mgm2, maxsum, adsa; TLC-drawn DCOPs over 8 shapes; oneagent and "
-                     "random distributions on 2-3 agents; switch interval drawn from {1e-6 .. 5e-3}); every start / on_message / pause of every "
+                     "random distributions on 2-3 agents, some runs with a scenario removing an agent; switch interval drawn from {1e-6 .. 5e-3}); every start / on_message / pause of every "
                      "computation added to an agent, every periodic action and every discovery callback registered from a computation callback is "
                      "recorded with its thread; non-trivial = a DCOP computation handled at least one message" % n)
     v.cov["trusted_base"] = ["TLC", "vlib/threadrt.py (class-level wrappers around Agent.add_computation / set_periodic_action / _run and Discovery.subscribe_*)"]
